@@ -420,8 +420,50 @@ def _ashort(x):
     return s
 
 
-def load_cases(tlc_result):
-    return tlc_result.cases
+def tlc_simulate(module, cfg, traces, seed, workers, timeout, tag, env=None):
+    """TLC in simulation mode (`-simulate num=<traces>`): common.tlc only recognises the end of an exhaustive
+    run, so the simulation runs are driven here.  Returns (cases, states checked, wall seconds)."""
+    import os
+    import re
+    import shutil
+    import subprocess
+    import time
+    from . import common
+    os.makedirs(common.WORK, exist_ok=True)
+    metadir = os.path.join(common.WORK, "md-" + tag)
+    shutil.rmtree(metadir, ignore_errors=True)
+    out_path = os.path.join(common.WORK, tag + ".out")
+    cmd = ["timeout", str(timeout), "java", "-Xss1g", "-Xmx6g", "-XX:+UseParallelGC", "-cp", common.tlc_java_cp(), "tlc2.TLC",
+           "-workers", str(workers), "-metadir", metadir, "-cleanup", "-noGenerateSpecTE", "-simulate", "num=%d" % traces,
+           "-seed", str(seed), "-config", os.path.join(common.SPEC, cfg), os.path.join(common.SPEC, module + ".tla")]
+    e = dict(os.environ)
+    if env:
+        e.update(env)
+    t0 = time.time()
+    with open(out_path, "w") as out:
+        p = subprocess.run(cmd, stdout=out, stderr=subprocess.STDOUT, env=e, cwd=common.SPEC)
+    wall = time.time() - t0
+    cases, states, bad = [], 0, None
+    with open(out_path, errors="replace") as f:
+        for line in f:
+            line = line.rstrip("\n")
+            if line.startswith('<<"CASE"'):
+                d = common._decode_print(line)
+                if d:
+                    cases.append(d[1])
+                continue
+            m = re.match(r"^The number of states generated: (\d+)", line)
+            if m:
+                states = int(m.group(1))
+            if line.startswith("Error:"):
+                bad = line
+    shutil.rmtree(metadir, ignore_errors=True)
+    if p.returncode == 124:
+        raise common.ToolError("TLC simulation timed out on %s/%s" % (module, cfg))
+    if bad or not states:
+        raise common.ToolError("TLC simulation failed on %s/%s: %s (see %s)" % (module, cfg, bad, out_path))
+    os.remove(out_path)
+    return cases, states, wall
 
 
 def jdump(x):
